@@ -34,6 +34,7 @@ def required_cells(tier):
             "method:meanfield_pt": 2, "method:corr": 3, "tau:nonmultiple": 5,
             "tau:negative": 3, "float-controls": 2, "arg_times_compared": 200,
             "tau:far": 6, "end:on-grid": 10,
+            "system-used-on-other-window-before": 10,
             "float-controls:near-coincident": 4}
 
 
@@ -66,6 +67,7 @@ def run_case(case):
     # the end of the interval as the grid point itself (start + N*dt in
     # floats, as a user writes it) or safely inside step N
     on_grid = bool((i // 5) % 2 == 0)
+    warm = bool((i // 10) % 2 == 1)
     subdiv = None if i % 2 else 256
     epsrel = 1e-8
     d = 2 if i % 3 else 3
@@ -160,6 +162,14 @@ def run_case(case):
         pa, pb = scen.Probe(), scen.Probe()
         sa = scen.random_system(gen.rng_for(seeds), d, "td", pa, 0.0)
         sb = scen.random_system(gen.rng_for(seeds), d, "td", pb, tau)
+        if warm:
+            # the system objects have a past: each was already used on
+            # another time window (same dt) before the runs that are compared
+            for sysd, s0 in ((sa, start - 0.53), (sb, start + tau + 0.29)):
+                oqupy.compute_dynamics(sysd["oq"], rho0, dt=dt, num_steps=2,
+                                       start_time=s0, subdiv_limit=subdiv,
+                                       progress_type="silent")
+            cells.append("system-used-on-other-window-before")
         pa.log.clear(), pb.log.clear()
         pa.counts.clear(), pb.counts.clear()
         if method == "tempo":
@@ -206,7 +216,23 @@ def run_case(case):
         baths = [oqupy.Bath(o, c) for o, c in zip(opers, corrs)]
         pa.log.clear(), pb.log.clear()
         pa.counts.clear(), pb.counts.clear()
-        if method == "meanfield":
+        if method == "meanfield" and warm:
+            # both solvers are set up first, on each mean-field system also a
+            # second one for another window, and only then run
+            ta_ = oqupy.MeanFieldTempo(ma, baths, params, rhos, a0, start)
+            tb_ = oqupy.MeanFieldTempo(mb, baths, params, rhos, a0,
+                                       start + tau)
+            oqupy.MeanFieldTempo(ma, baths, params, rhos, a0, start + 0.61)
+            oqupy.MeanFieldTempo(mb, baths, params, rhos, a0,
+                                 start + tau - 0.43)
+            pa.log.clear(), pb.log.clear()
+            pa.counts.clear(), pb.counts.clear()
+            da = ta_.compute(lib.end_time(start, dt, nsteps, on_grid),
+                             progress_type="silent")
+            db = tb_.compute(lib.end_time(start + tau, dt, nsteps, on_grid),
+                             progress_type="silent")
+            cells.append("system-used-on-other-window-before")
+        elif method == "meanfield":
             da = oqupy.MeanFieldTempo(ma, baths, params, rhos, a0,
                                       start).compute(
                 lib.end_time(start, dt, nsteps, on_grid),
@@ -283,6 +309,12 @@ def run_case(case):
             ta_spec = lambda s: (s + (ka + off1) * dt)
             tb_spec = lambda s: (s + (kb + off2) * dt)
         order = "anti" if i % 2 else "ordered"
+        if warm:
+            for sysd, s0 in ((sa, start - 0.53), (sb, start + tau + 0.29)):
+                oqupy.compute_dynamics(sysd["oq"], rho0, dt=dt, num_steps=2,
+                                       start_time=s0, subdiv_limit=subdiv,
+                                       progress_type="silent")
+            cells.append("system-used-on-other-window-before")
         pa.log.clear(), pb.log.clear()
         pa.counts.clear(), pb.counts.clear()
 
